@@ -148,6 +148,12 @@ THEOREMS = [
     "Verif.C18.reexport_after_export",
     "Verif.C18.export_legacy_tags",
     "Verif.C18.visible_selection",
+    "Verif.C18.exposure_roundtrip",
+    "Verif.C18.exposure_bound_needed",
+    "Verif.C18.exposure_ms_close",
+    "Verif.C18.exposure_times_roundtrip",
+    "Verif.C18.reexport_fixed_point_float",
+    "Verif.C18.reexport_after_export_float",
 ]
 RULE = (
     "corpus + exhaustive small scope + seeded random + malformed stream. stack: real TIFF stacks written with tifffile "
@@ -1197,6 +1203,122 @@ def oracle_mixin(case, ia):
     return None
 
 
+# ------------------------------------------------------------------ exposure kind ("Exposure time (ms)" float key)
+
+
+def f64_of(tok):
+    """a case's double: a float.hex() string"""
+    return float.fromhex(tok)
+
+
+def exposures_reopened(path):
+    """stop - start of frame_timestamp_ranges(include_dead_time=False) of ImageStack(file): TiffFrame.exposure_timestamp_range"""
+    from lumicks.pylake import ImageStack
+
+    st = ImageStack(path)
+    try:
+        return [int(b) - int(a) for a, b in st.frame_timestamp_ranges(include_dead_time=False)]
+    finally:
+        st.close()
+
+
+def impl_exposure(case):
+    """[0] the doubles behind "Exposure time (ms)" that ImageStack.export_tiff WRITES for pages whose exposure is e_i ns
+    (a camera TIFF without the key: the exposure is the DateTime span start:start+e_i), read raw with json;
+    [1] the exposures the reader reconstructs from that written file (exposure_timestamp_range through ImageStack);
+    [2] the exposures the reader reconstructs from a camera TIFF whose key holds the case's own doubles `ms`."""
+    from lumicks.pylake import ImageStack
+
+    obs = case["_obs"] = {}
+    a0, es, ms = case["start"], case["e"], [f64_of(t) for t in case["ms"]]
+    out = []
+    p1, p2, p3 = fresh("ex1"), fresh("ex2"), fresh("ex3")
+    try:
+        with warnings.catch_warnings():
+            warnings.simplefilter("ignore")
+            if es:
+                try:
+                    dts = [f"{a0 + 10 * i}:{a0 + 10 * i + e}" for i, e in enumerate(es)]
+                    write_pages(p1, dts, "Bluelake verif", [{"Camera": "verif"}] * len(es))
+                    st = ImageStack(p1)
+                    try:
+                        st.export_tiff(p2)
+                    finally:
+                        st.close()
+                    raw = read_raw(p2)
+                    obs["written"] = [json.loads(pg["desc"]).get("Exposure time (ms)") for pg in raw]
+                    obs["written_dt"] = [pg["dt"] for pg in raw]
+                    out.append(enc_ratlist([Fraction(float(x)) for x in obs["written"]]))
+                    try:
+                        obs["reread"] = exposures_reopened(p2)
+                        out.append(enc_list(obs["reread"]))
+                    except Exception as e:
+                        obs["reread_error"] = repr(e)
+                        out.append(errname(e))
+                except Exception as e:
+                    obs["write_error"] = repr(e)
+                    out += [errname(e), "not-written"]
+            else:
+                out += ["?", "?"]
+            if ms:
+                try:
+                    dts = [f"{a0 + 10 * i}:{a0 + 10 * i + 5}" for i in range(len(ms))]
+                    write_pages(p3, dts, "Bluelake verif", [{"Camera": "verif", "Exposure time (ms)": x} for x in ms])
+                    obs["read"] = exposures_reopened(p3)
+                    out.append(enc_list(obs["read"]))
+                except Exception as e:
+                    obs["read_error"] = repr(e)
+                    out.append(errname(e))
+            else:
+                out.append("?")
+        return out
+    finally:
+        rm(p1, p2, p3)
+
+
+def ops_exposure(case):
+    es = enc_list(case["e"])
+    return [f"c18.expms {es}", f"c18.exprt {es}", f"c18.expns {enc_ratlist([Fraction(f64_of(t)) for t in case['ms']])}"]
+
+
+EXPOSURE_EXACT = 10**15  # the bound of theorem exposure_roundtrip (ns)
+
+
+def oracle_exposure(case, ia):
+    obs = case.get("_obs", {})
+    es, ms = case["e"], [f64_of(t) for t in case["ms"]]
+    if es:
+        if "written" not in obs:
+            return f"export-refused: a readable camera TIFF could not be opened / exported: {obs.get('write_error')}"
+        w = obs["written"]
+        if len(w) != len(es):
+            return f"selection: {len(w)} pages written for {len(es)} pages"
+        for i, (e, x) in enumerate(zip(es, w)):
+            if x is None:
+                return f"exposure: page {i} carries no exposure key"
+            if abs(Fraction(float(x)) * 10**6 - e) > abs(e) * Fraction(1, 2**50):
+                return f"exposure: page {i} carries {x!r} ms for an exposure of {e} ns"
+            if obs["written_dt"][i] != f"{case['start'] + 10 * i}:{case['start'] + 10 * i + e}":
+                return f"timestamps: page {i} carries {obs['written_dt'][i]!r}"
+        if "reread" not in obs:
+            return f"exposure: the exported file cannot be read back: {obs.get('reread_error')}"
+        for i, (e, g) in enumerate(zip(es, obs["reread"])):
+            if abs(e) <= EXPOSURE_EXACT and g != e:
+                return f"exposure: page {i} exported with an exposure of {e} ns is read back with {g} ns"
+    if ms:
+        if "read" not in obs:
+            return f"exposure: a camera TIFF with exposure keys {ms} cannot be read: {obs.get('read_error')}"
+        for i, (x, g) in enumerate(zip(ms, obs["read"])):
+            exact = Fraction(x) * 10**6
+            if abs(g - exact) > Fraction(1, 2) + abs(exact) * Fraction(1, 2**52):
+                return f"exposure: key {x!r} ms is read as {g} ns"
+    return None
+
+
+def exposure_case(es, ms=(), start=None):
+    return {"kind": "exposure", "start": bt.T0 if start is None else start, "e": [int(e) for e in es], "ms": [float(x).hex() for x in ms]}
+
+
 # ------------------------------------------------------------------ datetime / legacy kinds
 
 
@@ -1343,6 +1465,8 @@ def impl(case):
         return impl_datetime(case)
     if k == "legacy":
         return impl_legacy(case)
+    if k == "exposure":
+        return impl_exposure(case)
     raise ValueError(k)
 
 
@@ -1358,6 +1482,8 @@ def ops(case):
         return [f"c18.decode {enc_list([ord(c) for c in case['s']])}"] * 2
     if k == "legacy":  # the direct call of the helper, and the same ranges as the tags of a legacy file read through ImageStack
         return [f"c18.legacy {enc_list([a for a, _ in case['ranges']])} {enc_list([b for _, b in case['ranges']])}"] * 2
+    if k == "exposure":
+        return ops_exposure(case)
     raise ValueError(k)
 
 
@@ -1368,6 +1494,11 @@ def agree(case, i, ia, ma):
         return True  # the derivation itself was refused (C06's business): nothing was exported, nothing to compare
     if ia == "not-written" and i > 0:
         return True  # the export was refused (op 0 compares that refusal with the model): there is no tag to read back
+    if case["kind"] == "exposure" and i == 0 and ia.startswith("[") and ma.startswith("["):
+        # the millisecond doubles: number policy (a double of the implementation within rel 1e-12 of the model's; `x / 1e6`
+        # instead of `x * 1e-6` is the same exposure) - the integers read back (ops 1, 2) are compared exactly
+        a, b = [Fraction(t) for t in ia[1:-1].split(",")], [Fraction(t) for t in ma[1:-1].split(",")]
+        return len(a) == len(b) and all(abs(x - y) <= abs(y) * Fraction(1, 10**12) for x, y in zip(a, b))
     return ia == ma
 
 
@@ -1383,6 +1514,8 @@ def oracle(case, ia):
         return oracle_datetime(case, ia)
     if k == "legacy":
         return oracle_legacy(case, ia)
+    if k == "exposure":
+        return oracle_exposure(case, ia)
     raise ValueError(k)
 
 
@@ -1754,6 +1887,21 @@ def cases(tier, rng):
             rr = [[10 + 10 * i + (i * i if variant == 1 else 0), 18 + 10 * i + (variant == 2) * 7] for i in range(n_)]
             yield {"stream": "small-scope", "kind": "legacy", "ranges": rr}
 
+    # ---------------- exposure key: ns -> float64 ms -> ns
+    exp_bound = sorted(set(
+        list(range(0, 21)) + [10**k + d for k in range(2, 16) for d in (-1, 0, 1)] + [2**k + d for k in (10, 24, 31, 32, 40, 49, 50) for d in (-1, 0, 1)]
+        + [40_000_000, 12_800, 999_999, 1_000_001, 123_456_789, 86_400 * 10**9, EXPOSURE_EXACT - 2, EXPOSURE_EXACT - 1, EXPOSURE_EXACT]))
+    exp_bound = [e for e in exp_bound if e <= EXPOSURE_EXACT]
+    for i in range(0, len(exp_bound), 4):  # every boundary exposure, 1-4 pages per file (1 page: the squeeze()/atleast_1d path)
+        yield dict(exposure_case(exp_bound[i : i + 4], ms=[(k + 0.5) / 1e6 for k in range(i, i + 4)]), stream="small-scope")
+    for e in (0, 1, 7, 12_800, 10**15):
+        yield dict(exposure_case([e]), stream="small-scope")
+    yield dict(exposure_case([-1, -5, -40_000_000, -(10**15)], ms=[-0.5e-6, -1.5e-6, -2.5e-6, -1.0]), stream="small-scope")
+    # beyond the bound of the theorem: model and code must still agree (the oracle asserts nothing on the read-back there)
+    yield dict(exposure_case([2252445244112521, 10**15 + 1, 2**53 - 1, 2**53 + 1], ms=[2**-20, 2**-30, 0.1, 1 / 3]), stream="small-scope")
+    yield dict(exposure_case([2**62, 2**62 + 2**61 - 12345, 2**60 + 1], ms=[1e9, 123456.789, 5e-7], start=0), stream="small-scope")
+    yield dict(exposure_case([], ms=[0.0, 5e-7, 1.5e-6, 2.5e-6, 40.0, 0.0128, 1e-7, 4.9999999e-7]), stream="small-scope")
+
     # ---------------- confocal: small scope
     conf = []
     levels = {"u8": [3, 60, 400], "u16": [3, 20000, 90000], "f32": [3, 2**22, 2**25]}
@@ -1916,6 +2064,27 @@ def cases(tier, rng):
             rr.append([t, t + sub.randint(0, 10**6)])
             t += sub.randint(0, 10**7)
         yield {"stream": "random", "kind": "legacy", "ranges": rr, "subseed": i}
+    r = rng.fork("c18-exposure")
+    for i in range(40 if quick else 1500):
+        sub = r.fork(i)
+        n_ = sub.randint(1, 4)
+        es, ms = [], []
+        for _ in range(n_):
+            mode = sub.randint(0, 9)
+            if mode <= 4:
+                e = int(sub.loguniform(1, EXPOSURE_EXACT))
+            elif mode == 5:
+                e = EXPOSURE_EXACT - sub.randint(0, 10**6)
+            elif mode == 6:
+                e = sub.randint(0, 10**4)
+            elif mode == 7:
+                e = -int(sub.loguniform(1, EXPOSURE_EXACT))
+            else:
+                e = sub.randint(EXPOSURE_EXACT, 2**53)  # beyond the theorem's bound: agreement only
+            es.append(e)
+            k = int(sub.loguniform(1, 10**12))
+            ms.append(sub.choice([(k + 0.5) / 1e6, (k + 0.5) * 1e-6, k / 1e6, k * 1e-6, sub.loguniform(1e-7, 1e6), k / 1e6 + sub.uniform(-1e-9, 1e-9)]))
+        yield dict(exposure_case(es, ms=ms, start=bt.T0 + sub.randint(0, 10**12)), stream="random", subseed=i)
 
 
 def reference_ok(spec, prog):
@@ -1928,7 +2097,10 @@ def reference_ok(spec, prog):
 
 def extra_coverage(results):
     kinds, outcomes, dtypes, ops_n, colours, exposure_modes, sizes = {}, {}, {}, {}, {}, {}, {}
-    derived = {}
+    derived, expo = {}, {}
+
+    def bump(d, key, n=1):
+        d[key] = d.get(key, 0) + n
     for r in results:
         c = r["case"]
         k = c["kind"]
@@ -1948,6 +2120,18 @@ def extra_coverage(results):
             sizes[n] = sizes.get(n, 0) + 1
             for o in c["prog"]:
                 ops_n[o[0]] = ops_n.get(o[0], 0) + 1
+        if k == "exposure":
+            bump(expo, f"pages_per_file:{len(c['e'])}")
+            for e in c["e"]:
+                cls = ("zero" if e == 0 else "negative" if e < 0 else "1..1e4" if e <= 10**4 else "..1e9" if e <= 10**9 else "..1e15-1e6" if e < EXPOSURE_EXACT - 10**6
+                       else "within 1e6 of the bound 1e15" if e <= EXPOSURE_EXACT else "beyond the bound, < 2^53" if e < 2**53 else ">= 2^53 (int64 -> float64 rounds)")
+                bump(expo, "written:" + cls)
+            got = c.get("_obs", {}).get("reread")
+            if got:
+                bump(expo, "read_back_differs_beyond_bound", sum(1 for e, g in zip(c["e"], got) if e != g))
+            for t in c["ms"]:
+                y = 1e6 * f64_of(t)
+                bump(expo, "read:" + ("product is an exact tie k+1/2 (half-even decides)" if y % 1 == 0.5 else "product is integral" if y % 1 == 0 else "product is fractional"))
         if k in ("kymo", "scan"):
             for o in c["derive"]:
                 derived[o[0]] = derived.get(o[0], 0) + 1
@@ -1963,7 +2147,7 @@ def extra_coverage(results):
         },
         "case_kinds": kinds, "outcomes": outcomes, "dtype_clip": dtypes, "stack_program_ops": ops_n, "stack_colours": colours,
         "stack_exposure_modes": exposure_modes, "stack_pages": {str(k): v for k, v in sorted(sizes.items())},
-        "confocal_derivations": derived,
+        "confocal_derivations": derived, "exposure_key_branches": expo,
         "notes": "stack: 1-10 pages in 1-3 files, 1x1 to 5x6 pixels; confocal: P<=6, <=8 lines / 2-4 x 2-4 pixels x 1-5 frames; "
                  "mixin: 1-12 values per image in grey/RGB layouts of 1-4 frames",
     }
